@@ -75,10 +75,14 @@ class DAtom:
 
 
 class DBond:
-    __slots__ = ("a", "b", "order", "display", "key", "begin_is_a")
+    """a = atom at the drawn Begin, b = atom at the drawn End; axy/bxy = where the drawing puts the two
+    ends on the page (for an end that was redirected into a contracted group: the placeholder's spot)."""
 
-    def __init__(self, a, b, order, display, key):
+    __slots__ = ("a", "b", "order", "display", "key", "axy", "bxy")
+
+    def __init__(self, a, b, order, display, key, axy, bxy):
         self.a, self.b, self.order, self.display, self.key = a, b, order, display, key
+        self.axy, self.bxy = axy, bxy
 
 
 def _order(bd):
@@ -146,7 +150,8 @@ class DFragment:
                 anchor = tb.b if tb.a == ap else tb.a
                 self.bonds.remove(tb)
                 del self.atoms[ap]
-                holders[nid] = anchor
+                p = node.get("p")
+                holders[nid] = (anchor, tuple(map(float, p.split()[:2])) if p else None)
                 self.nested += 1
                 continue
             a = DAtom(key, node, depth)
@@ -171,15 +176,18 @@ class DFragment:
                 self.hapto.append((idmap[c], att))
                 continue
             ends = []
+            xys = []
             for x in (B, E):
                 if x in holders:
                     used_holder[x] = used_holder.get(x, 0) + 1
-                    ends.append(holders[x])
+                    ends.append(holders[x][0])
+                    xys.append(holders[x][1])
                 elif x in idmap:
                     ends.append(idmap[x])
+                    xys.append(self.atoms[idmap[x]].xy)
                 else:
                     raise Unsupported("bond to an unknown node")
-            db = DBond(ends[0], ends[1], _order(bd), bd.get("Display"), prefix + (i,))
+            db = DBond(ends[0], ends[1], _order(bd), bd.get("Display"), prefix + (i,), xys[0], xys[1])
             self.bonds.append(db)
         for h in holders:
             if used_holder.get(h, 0) != 1:
